@@ -319,7 +319,8 @@ pub fn main(subjects: Vec<Box<dyn DynSubject>>, lay: (Layouts, BTreeMap<String, 
     let default_cases = cases_override.unwrap_or_else(|| crate::checks::default_cases(&prop, tier));
     std::thread::scope(|sc| {
         for _ in 0..threads.max(1) {
-            sc.spawn(|| {
+            // generous stacks: generated zero-copy values are passed by value through unoptimised code
+            let _ = std::thread::Builder::new().stack_size(256 << 20).spawn_scoped(sc, || {
                 install_panic_hook();
                 let mut local = Report::default();
                 loop {
